@@ -49,7 +49,12 @@ def _r13i(rep):
 
     view = core.KernelView(rep, "R13i")
     for mod in (c02, c06, c08, c10, c11, c12):
-        mod.run(view)
+        try:
+            mod.run(view)
+        except AnalysisError as e:
+            # an anchor of the other property's (possibly Python-side) rules is gone: that is that property's business;
+            # what its kernel rules produced up to here stands, the rest is listed as not decided
+            rep.unknown(f"R13i: {mod.__name__} stopped early: {str(e)[:160]}")
     n = sum(1 for r in rep.rules if r.startswith("R13i."))
     if n < 12:
         raise AnalysisError(f"R13i: only {n} kernel rules of the other properties produced instances in the compiled sources")
